@@ -1,6 +1,8 @@
 CONSTANTS
   Files = {}
   Lics = {}
+  GlobFiles = {}
+  GlobLic = "0BSD"
   MaxCmds = 0
   InitPick = "all"
 INIT TInit
